@@ -125,21 +125,109 @@ def derive_inputs(scn, paths, rng, n_random=4):
     return inputs
 
 
-def check_scenario(scn, rng, fuel=20000, n_random=4):
+_sym = None
+
+
+def sym_driver():
+    global _sym
+    if _sym is None:
+        from harness import common
+
+        exe, log = common.build_driver("SYM")
+        if exe is None:
+            raise RuntimeError("SymExec model driver does not build: " + log[-600:])
+        _sym = common.Model(exe)
+    return _sym
+
+
+def sym_input(scn, inp, loop=2, fuel=400, mem_limit=refevm.MEM_LIMIT):
+    code = list(scn["accounts"][scn["this"]]["code"])
+    data = []
+    nargs = 0
+    for seg in scn["calldata"]:
+        if seg[0] == "c":
+            data += list(seg[1])
+        else:
+            k = int(seg[1][3:])
+            nargs = max(nargs, k + 1)
+            data += [-(1 + 32 * k + j) for j in range(seg[2])]
+    args = [inp["args"].get(f"arg{i}", 0) for i in range(nargs)]
+    bals = inp.get("balances", {})
+    out = [mem_limit, fuel, loop, scn["this"], 1 if scn.get("static") else 0, len(code)] + code + [len(data)] + data
+    out += [inp["caller"], inp["origin"], inp["value"], len(args)] + args + [len(bals)]
+    for a, b in bals.items():
+        out += [a, b]
+    return out
+
+
+def sym_decode(res):
+    it = iter(res)
+    logged, nleaves, nsat = next(it), next(it), next(it)
+    leaves = []
+    for _ in range(nsat):
+        kind, sub = next(it), next(it)
+        lf = {"kind": ["ok", "revert", "halt", "stuck", "fuel", "halt"][kind], "raw": kind, "sub": sub}
+        if kind in (0, 1):
+            lf["ret"] = bytes(next(it) for _ in range(next(it)))
+        if kind == 0:
+            for key in ("store", "tstore"):
+                n = next(it)
+                lf[key] = [(next(it), next(it)) for _ in range(n)]
+        leaves.append(lf)
+    return {"logged": bool(logged), "nleaves": nleaves, "sat": leaves}
+
+
+def model_leg(scn, inputs, refs, holders):
+    """mini-SEVM model (extracted) on the same program and inputs: its satisfied leaves must
+    (a) describe the reference result [instance of theorem C01_sound] and (b) coincide with
+    the outcomes of halmos' holding paths [model <-> implementation].  Only scenarios
+    inside the modelled subset are comparable: inputs on which the model is stuck, out of
+    fuel or cut by the loop bound (the extracted oracle answers `unknown`) are skipped."""
+    loop = int(scn.get("options", {}).get("loop", 2))
+    m = sym_driver()
+    res = m.batch([("sym_run", sym_input(scn, i, loop=loop)) for i in inputs])
+    out = {"compared": 0, "skipped": 0, "model_vs_ref": [], "model_vs_halmos": []}
+    for inp, ref, hold, r in zip(inputs, refs, holders, res):
+        if r is None or ref["status"] in ("fuel", "unsupported", "model-error") or hold is None:
+            out["skipped"] += 1
+            continue
+        d = sym_decode(r)
+        if d["logged"] or any(lf["kind"] in ("stuck", "fuel") for lf in d["sat"]) or not d["sat"]:
+            out["skipped"] += 1
+            continue
+        out["compared"] += 1
+        rk = ref_kind(ref).split(":")[0]
+        for lf in d["sat"]:
+            if lf["raw"] == 5:
+                continue  # early invalid-jump leaf: excluded from C01_sound (known finding)
+            if lf["kind"] != rk or (rk in ("ok", "revert") and lf["ret"] != ref["ret"]):
+                out["model_vs_ref"].append({"input": inp, "model": {k: (v.hex() if isinstance(v, bytes) else v) for k, v in lf.items()}, "reference": rk})
+        hm = sorted((k.split(":")[0], rb.hex()) for k, rb in hold)
+        mm = sorted((lf["kind"], lf.get("ret", b"").hex()) for lf in d["sat"])
+        if hm != mm:
+            out["model_vs_halmos"].append({"input": inp, "halmos": hm, "model": mm})
+    return out
+
+
+def check_scenario(scn, rng, fuel=20000, n_random=4, with_model=False):
     """-> dict(paths, inputs, c01_failures, c02_failures, flags, stats)"""
     paths, flags = engine.run_scenario(scn)
     inputs = derive_inputs(scn, paths, rng, n_random)
     refs = refevm.run_many([ref_case(scn, i, fuel) for i in inputs], fuel=fuel)
     c01, c02, stats = [], [], {"evaluated": 0, "covered": 0, "unknown_eval": 0, "ref_skipped": 0}
     stuck = [p.kind for p in paths if p.kind.startswith("stuck")]
+    per_input_holders, kept_inputs, kept_refs = [], [], []
     for inp, ref in zip(inputs, refs):
         if ref["status"] in ("fuel", "unsupported", "model-error"):
             stats["ref_skipped"] += 1
             continue
         if any(b > (1 << 128) for b in inp.get("balances", {}).values()):
             continue  # documented modelling assumption: balances <= MAX_ETH
+        kept_inputs.append(inp)
+        kept_refs.append(ref)
         holders = 0
         unknown = 0
+        hold_out = []
         for p in paths:
             ok, ev = p.holds(inp)
             if ok is None:
@@ -151,6 +239,10 @@ def check_scenario(scn, rng, fuel=20000, n_random=4):
                 continue
             holders += 1
             stats["evaluated"] += 1
+            try:
+                hold_out.append((p.kind, p.ret_bytes(ev) if p.kind in ("ok", "revert") else b""))
+            except Exception:  # noqa: BLE001
+                hold_out = None
             try:
                 d = compare_path(scn, p, ev, inp, ref)
             except Exception as e:  # noqa: BLE001
@@ -164,5 +256,10 @@ def check_scenario(scn, rng, fuel=20000, n_random=4):
         elif not unknown and not stuck and not flags["bounded_loops"] and not flags["depth_cut"] and not flags["crashed"]:
             c02.append({"input": inp, "reference": ref_kind(ref), "path_kinds": [p.kind for p in paths]})
         stats["unknown_eval"] += unknown
-    return {"n_paths": len(paths), "kinds": [p.kind for p in paths], "n_inputs": len(inputs), "c01": c01, "c02": c02,
+        per_input_holders.append(None if (unknown or hold_out is None or any(k.startswith("stuck") for k, _ in hold_out)) else hold_out)
+    model = None
+    if with_model:
+        # inputs skipped above (reference unsupported / balances above MAX_ETH) have no holder entry
+        model = model_leg(scn, kept_inputs, kept_refs, per_input_holders)
+    return {"model": model, "n_paths": len(paths), "kinds": [p.kind for p in paths], "n_inputs": len(inputs), "c01": c01, "c02": c02,
             "flags": {k: v for k, v in flags.items() if k != "output"}, "stats": stats}
